@@ -223,9 +223,9 @@ func c03(c *orch.Ctx) (*report.Result, error) {
 					for _, e := range evs {
 						past := e.Ev == "call" || e.Ev == "body_read" || (e.Ev == "mw" && (e.Kind == "before_operation" || e.Kind == "input_validation"))
 						if past && secured {
-						counts["past-gate-events-checked"]++
-					}
-					if past && !approvedBefore(e.Seq) {
+							counts["past-gate-events-checked"]++
+						}
+						if past && !approvedBefore(e.Seq) {
 							counts["gate-breaches"]++
 							res.AddViolation("controller-side-code-ran-before-approval", map[string]string{"engine": eng, "event": e.Ev + e.Kind}, fmt.Sprintf("%s event %s%s (seq %d) is not preceded by the approval of any effective alternative", label, e.Ev, e.Kind, e.Seq), cs)
 							violated = true
